@@ -232,16 +232,23 @@ func timeline(t *testing.T, r *evid.Run, dir string, idx int) {
 		defer endSide()
 		srng := r.Rand(uint64(idx) + 1<<40) // writes landing inside a held upload draw from their own stream
 		var write func()
-		writeWith := func(rng *rand.Rand) {
+		writeWith := func(rng *rand.Rand, mayFail bool) {
+			kind := rng.IntN(8)
+			if kind == 7 && !mayFail {
+				kind = 1
+			}
+			if kind == 7 {
+				// (the backup task is parked while the directory is away: it must not find the file missing.
+				// Waiting happens before the lock is taken: a goroutine queueing for a mutex is not durably blocked)
+				synctest.Wait()
+			}
 			wmu.Lock()
 			defer wmu.Unlock()
 			// a snapshot after EVERY single save: the loop may read the file between any two of them
 			before, _ := os.ReadFile(path)
-			switch rng.IntN(8) {
+			switch kind {
 			case 7:
 				// a write that FAILS (the file system refuses the save): the database has not been written
-				// (the backup task is parked while the directory is away: it must not find the file missing)
-				synctest.Wait()
 				realdb.BreakDir(path, func() {
 					kdb.Put(su, fmt.Sprintf("k%d", rng.IntN(4)), []byte(fmt.Sprintf("lost-%d-%d", idx, nput)))
 				})
@@ -292,8 +299,8 @@ func timeline(t *testing.T, r *evid.Run, dir string, idx int) {
 			}
 			takeSnap()
 		}
-		write = func() { writeWith(rng) }
-		sideWrite := func() { writeWith(srng) }
+		write = func() { writeWith(rng, true) }
+		sideWrite := func() { writeWith(srng, false) }
 		ep := &endpoint{t0: t0, mode: "ok"}
 		client := newS3(ep)
 		ctx, cancel := context.WithCancel(context.Background())
